@@ -5,7 +5,7 @@ import time
 from vf import Inconclusive, parallel, require_clean, vfj_lines
 
 CLAIM = {
-    "text": "Render.tla specifies what a screen owes its reader: the linear scale as an exact rational with its clamps and the degenerate-range guard, Bucket/LengthVal as exact floors, ScaleKeys, the bar as floor(value*cells) sub-cells (unicode: 9 per cell; ascii), stacked segments sharing the width, palette lookup by bucket, visible length (colour sequences invisible when colour is on), the number formatters, the table layout from visible widths and the `(n more)` accounting, plus the heat-map header compaction loop written like the code. TLC proves the property's laws on that model (Render_MC: val,min,max in -6..12, widths 0..10: magnitudes in [0,1] and monotone, bucket never past the palette also at v = max, bars never wider than the maximum and growing with the value, stacked bars within the width for any signs, every row's cell i at the same offset, shown + not shown = total, the header loop terminates). The real code is bound twice: TLC-enumerated calls of the drawing primitives with every acceptable result, and TLC-enumerated aggregator states (Aggregators.tla histories over alphabets with zero, negative, equal and huge values, empty, long, multi-byte, escape-containing keys) are replayed: the real aggregators are sampled, compared with the expected state and drawn by the real HistoWriter, BarGraph (grouped/stacked), DataTable, Heatmap, Spark and the reduce TableWriter x {linear, log2, log10} x colour x unicode x formatter x row/column limits 0..n into a VirtualTerm under recover, fresh and progressively; the same for seeded random states (values to 4*10^7, up to 18 rows/columns) and 10^4..10^5 scaler triples in +-10^9. Render_Trace.tla (TLC) judges every recorded screen: a panic is a violation; line count, keys, displayed numbers = formatter(aggregated number), percentage, bars within the width, exactly floor(scale*cells) on the linear scale and monotone in the value on every scale, one heat/spark cell per shown column with the palette index of its bucket, table lines equal to the layout from visible widths (carried across progressive renders), legends, header, `(n more)` = rows/columns not shown. RenderInst.tla adds what ONE long-lived instance owes its reader across calls, as state machines written like the code with the property as invariants over every operation history: the buffered terminal (VirtualTerm: a write at any line number - in order, with gaps, far beyond the end - never fails and the screen is the fold of VWrite), the expression formatter (--format: the text is a function of value, min, max of THIS call), the histogram (line store, running maximum, key column, total, footers: after every call every line in use shows its number under the formatter with the present bounds 0..running maximum, the percentage of the present total and a bar scaled to the present maximum) and the bar graph (rows store, running maximum; stacked and grouped). TLC checks InstOK over all histories of 3 (4) operations and refutes seven negative controls (line buffer grown to twice the OLD capacity, on the terminal and through the histogram footer; formatter texts remembered by value alone, on the formatter, the histogram and the bar graph; a full redraw that skips lines holding a value <= 0; a redraw decided by the largest segment). TLC-generated operation histories (all of 2-3 operations, sampled ones of 6-7) with the expected screen after every operation are replayed on the real VirtualTerm, termformat.FromExpression, HistoWriter and BarGraph. In the screen records the chosen formatter may be an expression template reading {min}/{max} (one formatter per renderer instance, as the commands build it), whose bounds are the renderer's at that moment (0..running maximum for histogram and bar graph, least..largest cell for table, sparkline and heat-map legend), and every render is followed by footer lines as in cmd/*.go: below the renderer's drawing the screen must be the screen before the render with the footers written VirtualTerm-wise.",
+    "text": "Render.tla specifies what a screen owes its reader: the linear scale as an exact rational with its clamps and the degenerate-range guard, Bucket/LengthVal as exact floors, ScaleKeys, the bar as floor(value*cells) sub-cells (unicode: 9 per cell; ascii), stacked segments sharing the width, palette lookup by bucket, visible length (colour sequences invisible when colour is on), the number formatters, the table layout from visible widths and the `(n more)` accounting, plus the heat-map header compaction loop written like the code. TLC proves the property's laws on that model (Render_MC: val,min,max in -6..12, widths 0..10: magnitudes in [0,1] and monotone, bucket never past the palette also at v = max, bars never wider than the maximum and growing with the value, stacked bars within the width for any signs, every row's cell i at the same offset, shown + not shown = total, the header loop terminates). The real code is bound twice: TLC-enumerated calls of the drawing primitives with every acceptable result, and TLC-enumerated aggregator states (Aggregators.tla histories over alphabets with zero, negative, equal and huge values, empty, long, multi-byte, escape-containing keys) are replayed: the real aggregators are sampled, compared with the expected state and drawn by the real HistoWriter, BarGraph (grouped/stacked), DataTable, Heatmap, Spark and the reduce TableWriter x {linear, log2, log10} x colour x unicode x formatter x row/column limits 0..n into a VirtualTerm under recover, fresh and progressively; the same for seeded random states (values to 4*10^7, up to 18 rows/columns) and 10^4..10^5 scaler triples in +-10^9. Render_Trace.tla (TLC) judges every recorded screen: a panic is a violation; line count, keys, displayed numbers = formatter(aggregated number), percentage, bars within the width, exactly floor(scale*cells) on the linear scale and monotone in the value on every scale, one heat/spark cell per shown column with the palette index of its bucket, table lines equal to the layout from visible widths (carried across progressive renders), legends, header, `(n more)` = rows/columns not shown. RenderInst.tla adds what ONE long-lived instance owes its reader across calls, as state machines written like the code with the property as invariants over every operation history: the buffered terminal (VirtualTerm: a write at any line number - in order, with gaps, far beyond the end - never fails and the screen is the fold of VWrite), the expression formatter (--format: the text is a function of value, min, max of THIS call), the histogram (line store, running maximum, key column, total, footers: after every call every line in use shows its number under the formatter with the present bounds 0..running maximum, the percentage of the present total and a bar scaled to the present maximum) and the bar graph (rows store, running maximum; stacked and grouped). TLC checks InstOK over all histories of 3 (4) operations and refutes seven negative controls (line buffer grown to twice the OLD capacity, on the terminal and through the histogram footer; formatter texts remembered by value alone, on the formatter, the histogram and the bar graph; a full redraw that skips lines holding a value <= 0; a redraw decided by the largest segment). TLC-generated operation histories (all of 2-3 operations, sampled ones of 6-7) with the expected screen after every operation are replayed on the real VirtualTerm, termformat.FromExpression, HistoWriter and BarGraph. RenderHist.tla adds what is on the screen after a HISTORY of renders by one long-lived heat map, sparkline, table or bar graph (with its legend) whose aggregated data grows, shrinks (Trim: rows disappear) and changes between the renders: the data as a partial function <<column, row>> -> Int, an oracle (after every render the squeezed lines of the drawing are those of the PRESENT data: legend keys of the present - possibly fixed --min/--max - bounds under the chosen formatter, header, one cell per displayed column with the glyph of its bucket, numbers under the formatter with the present bounds, `(n more)` = rows/columns not shown, legend entry i in the glyph and colour of bar segment i also with more sub-keys than palette entries; footers directly below the drawing; the drawing equals what a fresh instance draws) and the four renderers over a TableWriter written like the code with everything they keep between renders; TLC checks HistOK over all histories of 2 (3) `data operation; render; footers` steps and refutes five negative controls (legend redrawn only when the bounds change, footer offset never given back, legend index reduced by the length of the other palette, rows in use never given back, bounds cached by the table); the TLC-generated histories with the expected screen after every render are replayed on the real aggregators and renderers in the call order of cmd/*.go. In the screen records the chosen formatter may be an expression template reading {min}/{max} (one formatter per renderer instance, as the commands build it), whose bounds are the renderer's at that moment (0..running maximum for histogram and bar graph, least..largest cell for table, sparkline and heat-map legend), and every render is followed by footer lines as in cmd/*.go: below the renderer's drawing the screen must be the screen before the render with the footers written VirtualTerm-wise.",
     "note": "Logarithmic scales: only range, monotonicity and shape are decided (no logarithm in TLA+). Values within +-10^9 (TLC integers are 32 bit). Keys are valid UTF-8 without leading/trailing blanks whose escape sequences are complete colour sequences; every rune counts one cell (color.StrLen). A float product that is an exact integer may be observed one lower (binary rounding). Alignment is demanded of the TableWriter-based renderers only (histogram and bar graph pad keys by rune count; the generated instance histories keep keys within the default key column). Footer i is taken to be line base+i with base = the configured number of lines (histogram) or the number of lines drawn (every other renderer), as cmd/*.go rely on. Expression formatters are templates of literal text and the references {0}/{val}, {1}/{min}, {2}/{max}. Trusted: TLC, the Go runtime, VirtualTerm as the screen.",
     "technique": "TLA+ contracts model-checked with TLC (laws over ranges; instance state machines with invariants over all operation histories and refuted negative controls) + model-generated vectors, aggregator states and operation histories replayed on the real code + TLC validation of recorded screens and scaler values",
 }
@@ -14,6 +14,7 @@ MC_CFG = "INIT Init\nNEXT Next\nCONSTANTS NegLo = %d\n Hi0 = %d\n MaxLenTop = %d
 GEN_CFG = ("INIT GInit\nNEXT GNext\nCONSTANTS Mode = \"%s\"\n MaxLen = %d\n Elems <- RElems\n Preds <- RNoPreds\n"
            " AccCfg <- RAccCfg\nINVARIANTS Sane Dump\nCHECK_DEADLOCK FALSE\n")
 TRACE_CFG = "SPECIFICATION TSpec\nINVARIANTS Final\nCHECK_DEADLOCK FALSE\n"
+HIST_CFG = "INIT %s\nNEXT %s\nCONSTANTS HSetups <- %s\n MaxRenders = %d\n HProfile = %d\nINVARIANTS %s\n%sCHECK_DEADLOCK FALSE\n"
 INST_CFG = "INIT %s\nNEXT %s\nCONSTANTS Setups <- %s\n MaxOps = %d\n Profile = %d\nINVARIANTS %s\n%sCHECK_DEADLOCK FALSE\n"
 
 
@@ -56,6 +57,7 @@ def _check(run):
         "alignment (equal column offsets in every row) is demanded of the TableWriter-based renderers (table, sparkline, reduce); row/column limits >= 0",
         "the exact heat-map header text is compared only when no shown column name contains an escape sequence while colour is on",
         "footer i of a renderer is line base+i (base: the histogram's configured number of lines; for every other renderer the number of lines it drew); lines below the drawing that no footer of this render addresses keep what they showed before the render",
+        "render histories (RenderHist.tla): colour and unicode off except for the bar graph; linear scale; histories whose drawing needs a floating-point product that is an exact integer with a denominator that is no power of two are left to the recorded screens; the padding of the implementation-shaped machines is compared exactly by the replay, the laws themselves compare squeezed lines",
         "expression formatters (--format) are templates of literal text and the references {0}/{val}, {1}/{min}, {2}/{max}; one formatter instance per renderer instance",
     ]
     run.build_harness()
@@ -111,6 +113,51 @@ def _check(run):
             return out
         return f
 
+    def hist_mc(setups, renders, profile, workers, least):
+        def f():
+            r = run.tlc("RenderHist", HIST_CFG % ("HInit", "HNext", setups, renders, profile, "HistOK", ""), workers=workers, timeout=3000, xmx="3g",
+                        label="RenderHist %s (code policies): all histories of %d renders, profile %d" % (setups, renders, profile))
+            require_clean(run, r, "RenderHist (render-history laws)")
+            if r.distinct < least:
+                raise Inconclusive("render-history machines explored only %d states" % r.distinct)
+            return r
+        return f
+
+    def hist_controls():
+        # every negative control (HControlList in RenderHist.tla) must reach a state HistOK rejects
+        r = run.tlc("RenderHist", HIST_CFG % ("HCtlInit", "HNext", "HControlSetups", 2, 1, "HCtlMark", "POSTCONDITION HCtlAllRefuted\n"),
+                    workers=1, timeout=3000, xmx="2g", label="RenderHist 5 negative controls (all must be refuted)")
+        if r.violated or r.errors or r.postcond_failed or not r.finished:
+            raise Inconclusive("a negative control of RenderHist.tla was not refuted (or the run failed): %s" % r.out[-1500:])
+        return r
+
+    def hist_gen(setups, renders, profile, sim, workers=1):
+        def f():
+            cfg = HIST_CFG % ("HGInit", "HGNext", setups, renders, profile, "HistOK HDump", "")
+            if sim:
+                r = run.tlc("RenderHist_Gen", cfg, workers=1, timeout=3000, xmx="2g", simulate="num=%d" % sim, depth=renders + 2,
+                            label="RenderHist_Gen %s sampled histories of %d renders" % (setups, renders))
+            else:
+                r = run.tlc("RenderHist_Gen", cfg, workers=workers, timeout=3000, xmx="3g",
+                            label="RenderHist_Gen %s all histories of %d renders" % (setups, renders))
+            if r.violated or r.errors:
+                raise Inconclusive("render-history generator %s failed: %s" % (setups, r.out[-2000:]))
+            out, seen = [], set()
+            for v in vfj_lines(r.out):
+                key = json.dumps(v, sort_keys=True)
+                if key not in seen:
+                    seen.add(key)
+                    out.append(v)
+            return out
+        return f
+
+    if quick:
+        hist_jobs = [hist_controls]          # (the code policies are checked by the generator runs: HistOK is an invariant there)
+        hist_gens = [hist_gen("HCodeSetups", 2, 1, 0, 2), hist_gen("HCodeSetups", 4, 2, 30)]
+    else:
+        hist_jobs = [hist_mc("HCodeSetups", 3, 1, 4, 50000), hist_controls]
+        hist_gens = [hist_gen("HCodeSetups", 2, 1, 0, 2), hist_gen("HCodeSetups", 5, 2, 600), hist_gen("HCodeSetups", 4, 3, 300)]
+
     if quick:
         inst_jobs = [inst_mc(3, 1, 2), inst_controls]
         inst_gens = [inst_gen("CodeSetups", 2, 1, 0), inst_gen("GenHisto", 6, 2, 30), inst_gen("GenOthers", 6, 2, 45)]
@@ -119,9 +166,10 @@ def _check(run):
         inst_gens = [inst_gen("CodeSetups", 3, 1, 0), inst_gen("GenHisto", 7, 2, 250), inst_gen("GenOthers", 7, 3, 400)]
 
     def b3_inst():
-        parallel(inst_jobs, 2)
+        parallel(inst_jobs + hist_jobs, 2)
 
     canaries = []
+    nhcan = [0]
 
     def gen_and_drive():
         jobs = [("fn", 1 if quick else 2, 1), ("states", 2 if quick else 4, 2)]
@@ -133,10 +181,14 @@ def _check(run):
                 raise Inconclusive("generator %s failed: %s" % (m, r.out[-2000:]))
             return vfj_lines(r.out)
 
-        outs = parallel([lambda i=i, j=j: g(i, *j) for i, j in enumerate(jobs)] + inst_gens, 3)
-        ninst = sum(len(o) for o in outs[len(jobs):])
+        outs = parallel([lambda i=i, j=j: g(i, *j) for i, j in enumerate(jobs)] + inst_gens + hist_gens, 4)
+        ninst = sum(len(o) for o in outs[len(jobs):len(jobs) + len(inst_gens)])
         if ninst < 3000:
             raise Inconclusive("instance generator produced only %d histories" % ninst)
+        nhist = sum(len(o) for o in outs[len(jobs) + len(inst_gens):])
+        if nhist < 5000:
+            raise Inconclusive("render-history generator produced only %d histories" % nhist)
+        ninst += nhist
         nvec = 0
         ncan = 0
         with open(vec_path, "w") as f:
@@ -144,6 +196,15 @@ def _check(run):
                 for v in vs:
                     f.write(json.dumps(v, separators=(",", ":")) + "\n")
                     nvec += 1
+                    if v.get("k") == "hist" and nvec % 97 == 0 and v["trail"] and v["trail"][-1]["see"]:
+                        # binding self-test: a history whose last expected screen is corrupted must be rejected by the replay
+                        c = json.loads(json.dumps(v))
+                        see = c["trail"][-1]["see"]
+                        see[(nvec // 97) % len(see)].append(90)
+                        c["canary"] = True
+                        f.write(json.dumps(c, separators=(",", ":")) + "\n")
+                        ncan += 1
+                        nhcan[0] += 1
                     if v.get("k") == "inst" and nvec % 61 == 0 and v["trail"]:
                         # binding self-test: the same history with a corrupted expectation must be rejected by the replay
                         c = json.loads(json.dumps(v))
@@ -172,12 +233,26 @@ def _check(run):
 
     # ---- B1 verdicts: primitives and aggregator states against the specification's values
     res = json.load(open(b1_res))
-    if res["fn_vectors"] + res["state_vectors"] + res["inst_vectors"] != nvec + canaries[0]:
-        raise Inconclusive("replay executed %d of %d vectors" % (res["fn_vectors"] + res["state_vectors"] + res["inst_vectors"], nvec + canaries[0]))
-    if canaries[0] < 20 or res["inst_canaries_rejected"] != canaries[0]:
-        raise Inconclusive("the instance replay rejected only %d of %d deliberately corrupted expectations" % (res["inst_canaries_rejected"], canaries[0]))
-    run.cov["b1_corrupted_instance_expectations_rejected"] = "%d of %d" % (res["inst_canaries_rejected"], canaries[0])
+    nexecd = res["fn_vectors"] + res["state_vectors"] + res["inst_vectors"] + res["hist_vectors"]
+    if nexecd != nvec + canaries[0]:
+        raise Inconclusive("replay executed %d of %d vectors" % (nexecd, nvec + canaries[0]))
+    ican = canaries[0] - nhcan[0]
+    if ican < 20 or res["inst_canaries_rejected"] != ican:
+        raise Inconclusive("the instance replay rejected only %d of %d deliberately corrupted expectations" % (res["inst_canaries_rejected"], ican))
+    if nhcan[0] < 20 or res["hist_canaries_rejected"] != nhcan[0]:
+        raise Inconclusive("the render-history replay rejected only %d of %d deliberately corrupted expectations" % (res["hist_canaries_rejected"], nhcan[0]))
+    run.cov["b1_corrupted_instance_expectations_rejected"] = "%d of %d" % (res["inst_canaries_rejected"], ican)
+    run.cov["b1_corrupted_history_expectations_rejected"] = "%d of %d" % (res["hist_canaries_rejected"], nhcan[0])
     for m in res["mismatches"] or []:
+        if m["f"].startswith("hist:"):
+            a = m["a"]
+            run.violation(("panic:%s" if m.get("panic") else "b1:%s") % m["f"],
+                          "one %s instance (%s) over one aggregator starting from %s, data operations each followed by a render and the footers %s: after "
+                          "render %d the real code %s; RenderHist.tla demands %s" % (
+                              m["f"][5:], json.dumps(a["cfg"])[:300], json.dumps(a["init"])[:120], json.dumps(a["ops"])[:300], a["failing_op"],
+                              "PANICKED " + m["panic"][:160] if m.get("panic") else "shows [" + " | ".join(text_of(l) for l in m["got"][:8])[:500] + "]",
+                              "[" + " | ".join(text_of(l) for l in m["exp"][:8])[:500] + "]"), m)
+            continue
         if m["f"].startswith("inst:"):
             a = m["a"]
             run.violation(("panic:%s" if m.get("panic") else "b1:%s") % m["f"],
@@ -195,6 +270,8 @@ def _check(run):
     run.cov["b1_state_vectors"] = res["state_vectors"]
     run.cov["b1_instance_histories"] = res["inst_per_machine"]
     run.cov["b1_instance_operations"] = res["inst_ops"]
+    run.cov["b1_render_histories"] = res["hist_per_machine"]
+    run.cov["b1_render_history_renders"] = res["hist_renders"]
     run.cov["b1_renders"] = res["per_renderer"]
     run.cov["b2_renders"] = st["per_renderer"]
     run.cov["b2_scale_triples"] = st["scale_triples"]
@@ -262,10 +339,10 @@ def _check(run):
         raise Inconclusive("trace validation rejected only %d of %d deliberately corrupted screens" % (canary_rejected, ncanary))
     run.cov["b2_corrupted_screens_rejected"] = "%d of %d" % (canary_rejected, ncanary)
     run.cov["b2_records_judged"] = consumed - ncanary
-    nexec = res["inst_ops"] + res["fn_vectors"] + res["renders"] + st["renders"] + st["scale_triples"] + st["fn_calls"]
+    nexec = res["hist_renders"] + res["inst_ops"] + res["fn_vectors"] + res["renders"] + st["renders"] + st["scale_triples"] + st["fn_calls"]
     run.cov["traces_validated_against_impl"] += nexec
     run.cov["evaluations"] += nexec
-    run.cov["distinct_nontrivial"] += res["inst_nontrivial"] + res["fn_nontrivial"] + res["nontrivial"] + st["nontrivial"]
+    run.cov["distinct_nontrivial"] += res["hist_nontrivial"] + res["inst_nontrivial"] + res["fn_nontrivial"] + res["nontrivial"] + st["nontrivial"]
     hung = res.get("hung") or st.get("hung")
     if hung:
         run.cov["hung"] = hung
@@ -276,4 +353,5 @@ def _check(run):
                        "B2: every screen drawn from those states and from seeded random states by every renderer x scale x colour x unicode "
                        "(limits, formatter, options rotating; full limit matrix on every n-th state) plus progressive renders; "
                        "non-trivial render = a screen of at least 2 lines; identical records are judged once; instance histories (RenderInst_Gen): every history of "
-                       "2 (3) operations per machine plus sampled histories of 6-7 operations, compared after every operation (non-trivial = a screen of at least 2 lines)")
+                       "2 (3) operations per machine plus sampled histories of 6-7 operations, compared after every operation (non-trivial = a screen of at least 2 lines); "
+                       "render histories (RenderHist_Gen): every history of 2 renders per machine and configuration plus sampled histories of 4-5 renders, the whole screen compared after every render")
